@@ -58,6 +58,7 @@ fn with_world<R>(name: &str, cfg: Config, f: impl FnOnce(&mut dyn World) -> R) -
         "M208" => go!(MapWorld::<Key8, Big200>::new(cfg)),
         "M64a" => go!(MapWorld::<Key8, Align64>::new(cfg)),
         "Mz" => go!(MapWorld::<Key8, ()>::new(cfg)),
+        "Ms" => go!(MapWorld::<crate::elem::KeyS, Val8>::new(cfg)),
         "M5" => go!(MapWorld::<KeyU8, P4>::new(cfg)),
         "M6" => go!(MapWorld::<KeyU16, P4>::new(cfg)),
         "Sz" => go!(SetWorld::<KeyZ>::new(cfg)),
